@@ -10,6 +10,9 @@ HOSTILE_CHARS = [
     '\u3000', '\ufeff', '\u0301', '\u00e9', '\u0416', '\u4e2d', '\uffff', '\ufffd',
     '\U0001f600', '\U00010000', '\U0010ffff', '\U000e0001',
     'x', 'u', 'U', '0', '4', '1', 'F', 'f', 'A', 'a',
+    # a literal backslash followed by what looks like an escape (the writer turns the
+    # backslash into \\x5C: decoding must not look at its own output again)
+    '\\u0041', '\\U00000041', '\\x41', '\\x5C', '\\x5Cu0041', '\\U0001F600',
 ]
 PLAIN = string.ascii_letters + string.digits + '_-+.'
 
